@@ -153,6 +153,12 @@ def caption_sets(texts, thorough):
         yield [(s, e, texts[0]), (s, e, texts[1])]
         yield [(s, e, texts[0]), (s, e, texts[1]), (pairs[i + 1][0], pairs[i + 1][1], texts[4])]
         yield [(s, e, texts[0]), (pairs[i + 1][0], pairs[i + 1][1], texts[4]), (pairs[i + 2][0], pairs[i + 2][1], texts[1])]
+    # consecutive captions whose times agree to the millisecond (or frame) but are not identical: never merged
+    for i in (0, 5):
+        s, e = pairs[i]
+        yield [(s, e, texts[0]), (s + 400, e, texts[1])]
+        yield [(s, e, texts[0]), (s, e + 1, texts[1]), (pairs[i + 1][0] + 2000, pairs[i + 1][1] + 2000, texts[4])]
+        yield [(s + 1, e + 1, texts[0]), (s, e, texts[1])]
     # captions that are NOT in ascending order of start: one cue per caption, in the set's own order
     for t in range(0, len(texts), 3):
         yield [(pairs[4][0], pairs[4][1], texts[t]), (pairs[1][0], pairs[1][1], texts[(t + 1) % len(texts)]),
